@@ -43,6 +43,9 @@ def a_molecules(thorough=True):
     # legal but degenerate geometry: the three neighbours of atom 0 are exactly collinear, so a single-atom move of
     # atom 0 has no defined direction (the library proposes a non-finite configuration, which must never be kept)
     out.append(('star4deg', 4, [(0, 1), (0, 2), (0, 3)], True))
+    # a chain whose last two atoms sit on the same point (a virtual site on top of its parent): the bond 1-2 has length
+    # zero and keeps it; a move of atom 2 along that bond has no direction (a non-finite proposal, never kept)
+    out.append(('chain3zero', 3, [(0, 1), (1, 2)], True))
     return out
 
 
@@ -165,6 +168,9 @@ class C06(Check):
             pa = generic_points(n, seed, scale=0.35, tag=10 + n) + np.array([0.3, -0.2, 0.1])
             if case.get('aname') == 'star4deg':
                 pa = DEG_POS.copy()
+            if case.get('aname') == 'chain3zero':
+                pa = pa.copy()
+                pa[2] = pa[1]
             names, bedges = BMOLS[case['b']]
             pb = generic_points(len(names), seed, scale=0.4, tag=30 + len(names))
             if case.get('far'):          # both molecules thousands of nm from the origin (legal in a .gro file)
@@ -214,7 +220,7 @@ class C06(Check):
         mob0 = (end_in if start_is_larger else start_in).atoms_positions
         bond0 = {e: float(np.linalg.norm(mob0[e[0]] - mob0[e[1]])) for e in map(tuple, mob_edges)}
         dev_at = set(case['dev_at']) if case.get('dev_at') else None
-        degenerate = case.get('aname') == 'star4deg'
+        degenerate = case.get('aname') in ('star4deg', 'chain3zero')
         rot_new = np.array([[0.0, -1.0, 0.0], [1.0, 0.0, 0.0], [0.0, 0.0, 1.0]])
 
         def shape_violation(conf):
